@@ -828,6 +828,13 @@ class DATETIME(NUMERIC):
                                        unique=unique, shift_step=8,
                                        sortable=sortable)
 
+    def default_column(self):
+        # The column stores microseconds since datetime.min (see
+        # to_column_value); the inherited default (2 ** 64 - 1) is not a
+        # datetime, so use the highest one, as numbers use their maximum
+        default = datetime_to_long(datetime.datetime.max)
+        return columns.NumericColumn(self.sortable_typecode, default=default)
+
     def prepare_datetime(self, x):
         from whoosh.util.times import floor
 
